@@ -26,7 +26,7 @@ func c10(r *Report) {
 	r.Determ(DetermSpec{IDPrefix: "C10.determ", Funcs: fns, MinLoops: 9,
 		Pure: map[string]bool{"String": true, "Equals": true, "Compare": true, "URI": true,
 			"github.com/nuts-foundation/nuts-node/vdr/didnuts/util.LDContextToString": true,
-			"github.com/nuts-foundation/nuts-node/crypto/hash.ParseHex":                true},
+			"github.com/nuts-foundation/nuts-node/crypto/hash.ParseHex":               true},
 		Reviewed: map[string]string{
 			"(*vdr/didnuts/didstore.store).Conflicted": "iterator API over the conflicted-documents cache: hands each entry to a callback; the property orders nothing about this iterator and ConflictedCount is a count",
 		}})
